@@ -26,6 +26,7 @@ WHAT = {
 C06_KNOWN = {
     "Receive started after PostStop had started": "ReceiveAfterPostStop",
     "PostStop runs on one goroutine while Receive runs on another": "PostStopDuringReceive",
+    "PreStart runs on one goroutine while Receive runs on another": "ReceiveDuringPreStart",
 }
 
 
@@ -111,9 +112,13 @@ def run(ctx, pid):
     def explore(mode, nprod, nmsgs):
         t = ctx.tmp("explore-%d-%d.ndjson" % (mode, nprod))
         n = 250 if quick else 3000
+        if mode == 4:
+            n = 40 if quick else 400     # supervised restart after a panic: each run holds a worker ~120 ms
         p = ctx.run([exe, "explore", str(n), str(nprod), str(nmsgs), str(ctx.seed * 10 + mode), t, "2", str(mode)], timeout=3000)
         rs = json.loads(p.stdout.strip().splitlines()[-1])
         mm, nl = monitor(ctx, t, "explore-%d-%d" % (mode, nprod))
+        if mode == 4:       # supervised restart: the supervisor's goroutine is not part of ActorTurn.tla
+            return ("explore SUPERVISED-RESTART producers=%d" % nprod), rs, mm, nl, t
         if mode >= 10:      # grain runs: judged by the monitor only (ActorTurn.tla's step names are the PID's)
             return ("explore GRAIN mode=%d producers=%d" % (mode, nprod)), rs, mm, nl, t
         # code -> spec conformance at gate granularity: every explored execution must be a behaviour of ActorTurn.tla
@@ -143,6 +148,10 @@ def run(ctx, pid):
         return ("explore mode=%d producers=%d" % (mode, nprod)), rs, mm, nl, t
 
     sfuts += [pool.submit(explore, m, np_, nm) for m in modes for (np_, nm) in ((2, 3), (3, 2))]
+    if pid == "C06":
+        # a panic in Receive under a Restart directive: the supervisor's restartChild goroutine (adopted at restart.wait)
+        # re-initialises the SUSPENDED actor while dispatcher workers keep draining its mailbox
+        sfuts.append(pool.submit(explore, 4, 2, 3))
     if pid in ("C01", "C03"):
         # grains have their own copy of the turn machine: 10 = plain grain, 11 = grain whose OnDeactivate fails with a short
         # deactivate-after (the only way one grainPID is activated twice: re-activation in place)
